@@ -56,6 +56,9 @@ type World struct {
 	closed         bool
 	// sharedMachines: the machines belong to the fixture, not to this world (never closed here)
 	sharedMachines bool
+	// OnOperation, if set, is called by Answer with the operation file an operator is about to carry to its machine
+	// (a check may let the operator do something else with it first, e.g. read it twice)
+	OnOperation func(i int, op *types.Operation, file []byte)
 }
 
 func derive(seed []byte, label string, i int) []byte {
@@ -239,6 +242,9 @@ func (w *World) Answer(i int, op *types.Operation) (*types.Operation, error) {
 	file, err := n.OperationFile(op.ID)
 	if err != nil {
 		return nil, fmt.Errorf("getOperation: %w", err)
+	}
+	if w.OnOperation != nil {
+		w.OnOperation(i, op, file)
 	}
 	resFile, err := w.Machines[i].Process(file)
 	if err != nil {
